@@ -81,7 +81,7 @@ def case_st(draw, scenario, steps):
         c["size"] = draw(fl(0.05, 0.4))
         c["meanV"] = draw(fl(300, 3000))
     else:
-        c["target"] = draw(fl(1.0, 8.0))
+        c["target"] = draw(st.one_of(fl(0.3, 8.0), fl(0.3, 1.5)))  # low occupancies visit the empty box
         c["L"] = draw(fl(8.0, 14.0))
         c["shear"] = [draw(fl(-0.3, 0.3)) for _ in range(3)]
         c["n0"] = draw(st.integers(0, 4))
